@@ -243,6 +243,11 @@ func (d *disconnectHandler) stop() {
 }
 
 func (e *kvElection) handleReconnect() {
+	// The grace timer belongs to the disconnect handler and is guarded by its lock;
+	// it is stopped before e.mu is taken (the timer callback takes the two locks in
+	// the order handler lock, e.mu).
+	e.disconnectHandler.stop()
+
 	e.mu.Lock()
 	defer e.mu.Unlock()
 
@@ -253,11 +258,6 @@ func (e *kvElection) handleReconnect() {
 
 	if e.cfg.Metrics != nil {
 		e.cfg.Metrics.SetConnectionStatus(1, e.getMetricsLabels())
-	}
-
-	if e.disconnectHandler.timer != nil {
-		e.disconnectHandler.timer.Stop()
-		e.disconnectHandler.timer = nil
 	}
 
 	if !e.isLeader.Load() {
